@@ -193,7 +193,7 @@ impl Check for RwaReal {
                 }
             }
             if let Some((kind, got, exp)) = outcome {
-                st.hit(if got { "tx.ok" } else { "tx.refused" });
+                st.tx(kind, got);
                 if got != exp {
                     let check = match (kind, got) { ("transfer", true) => "gate.transfer", ("mint", true) => "gate.mint", ("add_module_to" | "remove_module_from", _) => "modules.dup_or_absent_refused", (_, true) => "refine.must_fail", _ => "live.open_gates_succeed" };
                     return Err(violation(check, kind, i, format!("{s:?}: real {got} model {exp}; model {m:?}")));
